@@ -52,6 +52,11 @@ func SetBackend(b Backend, id int) {
 	backend[BackendID(id)] = b
 }
 
+// HasBackend returns whether a wallet backend is set for the given id.
+func HasBackend(id BackendID) bool {
+	return backend[id] != nil
+}
+
 // NewAddress returns a variable of type Address, which can be used
 // for unmarshalling an address from its binary representation.
 func NewAddress(id BackendID) Address {
